@@ -17,6 +17,7 @@ P(id, e) == CallE("probe", <<Nm(id), e>>)
 
 \* function bodies observe their parameters, a global (gv) and assign a local that shadows a global
 BodyXY == << Assign("x", Bin("+", V("x"), Nm(10))), ExprS(P(1, V("x"))), ExprS(P(2, V("y"))),
+             ExprS(P(16, CallE("if", <<V("x"), V("x"), V("gv")>>))), ExprS(P(17, CallE("if", <<V("y"), V("gv"), V("x")>>))),   \* if() branches read the locals
              ExprS(P(3, V("gv"))), Assign("gv", Nm(99)), ExprS(P(4, V("gv"))), RetE(V("x")) >>
 BodyRest == << ExprS(P(5, V("p"))), ExprS(P(6, CallE("arrayLength", <<V("rest")>>))), ExprS(P(7, V("rest"))), RetE(V("rest")) >>
 BodyNone == << Assign("loc", Nm(1)), ExprS(P(8, V("loc"))), ExprS(P(9, V("x"))) >>
